@@ -63,6 +63,7 @@ type isoConfig struct {
 	workers    int
 	chunk      int
 	watchdog   time.Duration // wall-clock per child; firing is INCONCLUSIVE only
+	maxCrashes int           // stop handing out cases after that many dead children (the verdict is settled)
 }
 
 type isoOutcome struct {
@@ -71,6 +72,7 @@ type isoOutcome struct {
 	inconclusive []string
 	children     int
 	raceExits    int
+	skipped      int // cases not run because of a crash storm
 }
 
 const (
@@ -332,9 +334,16 @@ func runIsolated(cfg isoConfig, cases []caseID) *isoOutcome {
 	}
 	var mu sync.Mutex
 	queue := append([]caseID(nil), cases...)
+	if cfg.maxCrashes <= 0 {
+		cfg.maxCrashes = 30
+	}
 	next := func() []caseID {
 		mu.Lock()
 		defer mu.Unlock()
+		if len(out.crashes) >= cfg.maxCrashes {
+			out.skipped += len(queue)
+			queue = nil
+		}
 		n := min(cfg.chunk, len(queue))
 		c := queue[:n]
 		queue = queue[n:]
